@@ -45,6 +45,9 @@ namespace sqf::parser::preprocessor
                 }
             }
         public:
+            // Number of line ends removed by backslash-newline joins that have not been
+            // given back to the output yet.
+            size_t swallowed_newlines = 0;
             preprocessorfileinfo(::sqf::runtime::fileio::pathinfo pinf)
                 : pathinf(pinf)
             {
@@ -127,6 +130,9 @@ namespace sqf::parser::preprocessor
                     if ((pc1 == '\r' && pc2 == '\n') || pc1 == '\n')
                     {
                         _next();
+                        // The joined line end still is a line of the source: whoever writes the
+                        // output owes it a newline, or all later lines are numbered too low.
+                        swallowed_newlines++;
                         return next();
                     }
                 }
